@@ -126,6 +126,8 @@ class relative_se3(FnContract):
         yield Clause("rotation_block_is_a_rotation_for_SE3_inputs",
                      c.Implies(both, c.And(*[cond for _, cond in self._accept_steps(c, rot)])), role="aux")
         yield Clause("rotation_block_accepted_for_SE3_inputs", c.Implies(both, so3_accept(c, rot)), role="aux")
+        yield Clause("result_in_SE3_for_SE3_inputs", c.Implies(both, c.And(*spec.is_SE3_exact(res, c.eq))), role="aux",
+                     note="SE(3) is closed under A^-1 * B")
         yield Clause("bottom_row_for_SE3_inputs", c.Implies(both, c.And(c.eq(res[3, 0], 0), c.eq(res[3, 1], 0),
                                                                         c.eq(res[3, 2], 0), c.eq(res[3, 3], 1))), role="aux")
 
@@ -140,6 +142,8 @@ class relative_se3(FnContract):
         both = c.And(*(spec.is_SE3_exact(a.p1, c.eq) + spec.is_SE3_exact(a.p2, c.eq)))
         for lab, cond in self._accept_steps(c, res[:3, :3]):
             yield lab, c.Implies(both, cond)
+        for i, cond in enumerate(spec.is_SE3_exact(res, c.eq)):
+            yield "result_in_SE3_%d" % i, c.Implies(both, cond)
 
 
 @register
